@@ -24,6 +24,8 @@ def install_server_seams():
     if _installed:
         return
     _installed = True
+    from sim import simthreading
+    simthreading.install()
     _socketserver.socket = SocketModuleShim
     _socketserver._ServerSelector = FakeSelector
     _socketserver.threading = ThreadingShim
